@@ -8,6 +8,7 @@ import GeonumModel.Lemmas.ExactAdd
 import GeonumModel.Lemmas.SumMagFloat
 import GeonumModel.Lemmas.FloatSumDir
 import GeonumModel.Lemmas.FloatSumCart
+import GeonumModel.Lemmas.FloatMetric
 
 set_option linter.unusedSectionVars false
 set_option linter.unusedVariables false
@@ -215,6 +216,20 @@ theorem sum_cartesian_float {a b : Geonum F} (ha : a.angle.Inv) (hb : b.angle.In
       ≤ (val a.mag + val b.mag) * (2 / 10 ^ 7 + 11 / 10 * (val (e10 : F)
           + (40 * ((a.angle.blade + b.angle.blade : ℕ) : ℝ) + 170) * (1 / 2 ^ 53))) + 1 / 10 ^ 28 :=
   Geonum.sum_cartesian_float ha hb hma hmb hcb h1 h2
+
+/-- (B) **subtraction is the Cartesian difference in rounded arithmetic** (general branch of `a + (−b)`): the Cartesian components of
+    `a − b` plus those of `b` are those of `a`, within the `sum_cartesian_float` bound at blade count `ba + bb + 2` (the half turn of
+    `negate` is exact) -/
+theorem diff_cartesian_float {a b : Geonum F} (ha : a.angle.Inv) (hb : b.angle.Inv) (hma : a.MagDom) (hmb : b.MagDom)
+    (hcb : a.angle.blade + b.angle.blade + 2 ≤ 2 ^ 39)
+    (h1 : sameAngle a b.negate = false) (h2 : oppositeAngle a b.negate = false) :
+    |val (a.sub b).mag * Real.cos (Angle.Tpi (a.sub b).angle) + val b.mag * Real.cos (Angle.Tpi b.angle) - val a.mag * Real.cos (Angle.Tpi a.angle)|
+      ≤ (val a.mag + val b.mag) * (2 / 10 ^ 7 + 11 / 10 * (val (e10 : F)
+          + (40 * ((a.angle.blade + b.angle.blade + 2 : ℕ) : ℝ) + 170) * (1 / 2 ^ 53))) + 1 / 10 ^ 28 ∧
+    |val (a.sub b).mag * Real.sin (Angle.Tpi (a.sub b).angle) + val b.mag * Real.sin (Angle.Tpi b.angle) - val a.mag * Real.sin (Angle.Tpi a.angle)|
+      ≤ (val a.mag + val b.mag) * (2 / 10 ^ 7 + 11 / 10 * (val (e10 : F)
+          + (40 * ((a.angle.blade + b.angle.blade + 2 : ℕ) : ℝ) + 170) * (1 / 2 ^ 53))) + 1 / 10 ^ 28 :=
+  Geonum.sub_cartesian_float ha hb hma hmb hcb h1 h2
 
 end B
 
